@@ -3,25 +3,24 @@
 cd "$(dirname "$0")/.."
 J=${J:-5}
 run() { python3 tools/mutrun.py "$@" --jobs $J; }
-run C04 tdda/referencetest/checkfiles.py ALL --max 45
-run C15 tdda/referencetest/checkfiles.py ALL --max 34
-run C05 tdda/referencetest/checkpandas.py ALL --max 42
-run C06 tdda/constraints/pd/constraints.py ALL --max 45
-run C02 tdda/constraints/pd/constraints.py ALL --max 34
-run C08 tdda/constraints/db/drivers.py ALL --max 34
-run C08 tdda/constraints/db/constraints.py ALL --max 20
-run C10 tdda/referencetest/referencetest.py ALL --max 42
-run C16 tdda/serial/csvw.py ALL --max 22
-run C16 tdda/serial/pandasio.py ALL --max 20
-run C17 tdda/constraints/flags.py ALL --max 20
-run C17 tdda/constraints/pd/constraints.py discover_df,verify_df,detect_df,load_df,discover_df_from_file,verify_df_from_file,detect_df_from_file --max 20
-run C03 tdda/rexpy/rexpy.py ALL --max 62
-run C13 tdda/rexpy/rexpy.py ALL --max 28
-run C09 tdda/constraints/base.py ALL --max 34
-run C07 tdda/constraints/baseconstraints.py ALL --max 28
-run C01 tdda/constraints/base.py ALL --max 22
-run C19 tdda/referencetest/referencetestcase.py ALL --max 22
-run C11 tdda/referencetest/gentest.py ALL --max 34
-run C12 tdda/referencetest/gentest.py ALL --max 22
-run C14 tdda/rexpy/rexpy.py ALL --max 22
-run C18 tdda/rexpy/rexpy.py ALL --max 22
+run C15 tdda/referencetest/checkfiles.py ALL --max 14
+run C05 tdda/referencetest/checkpandas.py ALL --max 17
+run C06 tdda/constraints/pd/constraints.py ALL --max 18
+run C02 tdda/constraints/pd/constraints.py ALL --max 14
+run C08 tdda/constraints/db/drivers.py ALL --max 14
+run C08 tdda/constraints/db/constraints.py ALL --max 12
+run C10 tdda/referencetest/referencetest.py ALL --max 17
+run C16 tdda/serial/csvw.py ALL --max 12
+run C16 tdda/serial/pandasio.py ALL --max 12
+run C17 tdda/constraints/flags.py ALL --max 12
+run C17 tdda/constraints/pd/constraints.py discover_df,verify_df,detect_df,load_df,discover_df_from_file,verify_df_from_file,detect_df_from_file --max 12
+run C03 tdda/rexpy/rexpy.py ALL --max 25
+run C13 tdda/rexpy/rexpy.py ALL --max 12
+run C09 tdda/constraints/base.py ALL --max 14
+run C07 tdda/constraints/baseconstraints.py ALL --max 12
+run C01 tdda/constraints/base.py ALL --max 12
+run C19 tdda/referencetest/referencetestcase.py ALL --max 12
+run C11 tdda/referencetest/gentest.py ALL --max 14
+run C12 tdda/referencetest/gentest.py ALL --max 12
+run C14 tdda/rexpy/rexpy.py ALL --max 12
+run C18 tdda/rexpy/rexpy.py ALL --max 12
